@@ -112,6 +112,36 @@ CHECKS = {
             'Trusted: kernel model; transports are observed through is_closing() of the real transport objects the '
             'loop created.  Bounded by history depth 3 (quick) / 4 (thorough).',
             'DESIGN.md section 3, C10'),
+    'C11': ('exploration',
+            'bounded-exhaustive enumeration of register contents through the real decoders',
+            'For every sensor of every table the contents of its own registers are enumerated (exhaustively per 16-bit '
+            'field for eco-mode/schedule groups, per byte for timestamps, all 65536 values for 2-byte fields in the '
+            'thorough tier) and decoded through Inverter._map_response; whole-block sentinel fills go through both '
+            'Modbus framings; ES answers of every announced length 0..255 go through the real API on the real '
+            'transport.  No exception other than ValueError may escape, every id must be present, contents the '
+            'reference decoder calls uninterpretable must be None and must not disturb other values.',
+            'Trusted: reference notion of "uninterpretable" in mc/refdec.py.  Exhaustive over the stated per-field '
+            'domains, justified by the non-interference check of C12.',
+            'DESIGN.md section 3, C11'),
+    'C12': ('exploration',
+            'bounded-exhaustive per-field enumeration against independent reference decoders + perturbation of every other register',
+            'Every sensor with own registers of every table of ET/DT/ES is decoded for all contents of its 2-byte field '
+            '(each half of 4-byte fields, per-byte/per-word for larger groups) embedded in seed-selected blocks at three '
+            'block start addresses and both Modbus framings and compared with a reference decoder written per type from '
+            'the documentation; every other byte of the block is then perturbed and the value must not change.  The '
+            'register map itself (id -> type, address, scale, unit) is compared with a pinned copy.',
+            'Trusted: mc/refdec.py, the pinned register map mc/data/address_map.json (taken from the tables at the pinned '
+            'commit; it stands in for the vendor register documentation).',
+            'DESIGN.md section 3, C12'),
+    'C13': ('exploration',
+            'bounded-exhaustive enumeration of code words / operand grids over structurally discovered sensor pairs',
+            'Every (code, label) pair, 4-byte and 2+2-byte bitmap and every derived sensor (sums, products, house '
+            'consumption, grid direction) found in the tables is evaluated through Inverter._map_response for all 65536 '
+            'code words (boundary-grid products for formulas) and compared with its definition over the raw values of the '
+            'same result; which documented label table each label sensor uses is pinned.',
+            'Trusted: formulas written from the table comments / property text in mc/checks/c13.py, pinned label tables '
+            'mc/data/labels.json.  One genuine defect is recorded as a known finding (EnumBitmap22).',
+            'DESIGN.md section 3, C13'),
 }
 
 NOT_BUILT = 'check not built yet (planned, see DESIGN.md section 3)'
